@@ -372,7 +372,7 @@ pub fn gen(r: &mut Rng, cases: usize, size: usize, extra: &[String], out: &mut O
                 let p = ["native", "hybrid", "hybridpre"][r.usize(3)];
                 out.line(&format!("build {p}"));
                 let calls = r.range(2, 10);
-                let menu = ["grounded", "complete", "stable", "stablepre", "stmca", "stmcb", "ngS", "ngA", "ngB", "ngScript", "extra", "counts"];
+                let menu = ["grounded", "complete", "stable", "stablepre", "stmca", "stmcb", "ngS", "ngA", "ngB", "ngScript", "extra", "counts", "facets"];
                 let emit = |r: &mut Rng, out: &mut Out, c: &str| match c {
                     "ngS" => out.line(&format!("ng {p} Simple stable")),
                     "ngA" => out.line(&format!("ng {p} MinModMinPathsMaxVarImp twoval")),
@@ -811,6 +811,21 @@ impl Exec {
                     let a = self.adf(ws[1])?;
                     let c = a.formulacounts(false);
                     Some(c.iter().map(|m| format!("{},{}", m.cmodels, m.models)).collect::<Vec<_>>().join(" "))
+                }));
+                match r {
+                    Ok(Some(s)) => out.line(&format!("= {}", if s.is_empty() { "-".into() } else { s })),
+                    Ok(None) => out.line("= bad-request"),
+                    Err(_) => out.line("= panic"),
+                }
+                true
+            }
+            "facets" if ws.len() == 2 => {
+                out.line(l);
+                let r = catch_unwind(AssertUnwindSafe(|| {
+                    let a = self.adf(ws[1])?;
+                    let ac = a.ac.clone();
+                    let c = a.facet_count(&ac);
+                    Some(c.iter().map(|(m, (cfc, fc))| format!("{},{},{},{}", m.cmodels, m.models, cfc, fc)).collect::<Vec<_>>().join(" "))
                 }));
                 match r {
                     Ok(Some(s)) => out.line(&format!("= {}", if s.is_empty() { "-".into() } else { s })),
